@@ -1185,7 +1185,8 @@ impl SvgElement {
                 let r = if inscribe {
                     0.5 * width.min(height)
                 } else {
-                    0.5 * width.max(height) * SQRT_2
+                    // (through the corners of the box)
+                    0.5 * width.hypot(height)
                 };
                 self.attrs.insert("r", fstr(r));
             }
